@@ -19,7 +19,9 @@ theorem tie_createCall : createCallShape =
      stmt .n0, stmt .n1, stmt .n2, stmt .n3, "return c, false"] := by decide
 
 open SF in
-/-- `makeCall`: run fn, store its result; deferred: lock, **delete the entry, unlock, then Done**. -/
+/-- `makeCall`: run fn, store its result; deferred: lock, **delete the entry, unlock, then Done**.  The cleanup is a
+`defer`red function registered before `fn` is called, so it also runs when `fn` panics (model rows `mp` → `d0 … d3` → `px`;
+the store `m2` is skipped). -/
 theorem tie_makeCall : makeCallShape =
     ["defer{", "func{", stmt .d0, stmt .d1, stmt .d2, stmt .d3, "}", "call func", "}",
      stmt .m0, stmt .m2, "store c.err"] := by decide
@@ -47,7 +49,7 @@ theorem tie_lockedDo : lockedDoShape =
 
 open LC in
 /-- `lockedGroup.makeCall`: Add(1), register, unlock, run the caller's own fn; deferred: lock, **delete, unlock,
-then Done**. -/
+then Done** (registered with `defer` before `fn` runs: also executed when `fn` panics, rows `fp` → `e0 … e3` → `px`). -/
 theorem tie_lockedMakeCall : lockedMakeCallShape =
     [stmt .c0, stmt .c1, stmt .c2, stmt .c3,
      "defer{", "func{", stmt .e0, stmt .e1, stmt .e2, stmt .e3, "}", "call func", "}",
@@ -72,6 +74,19 @@ theorem tie_newResourceManager : newResourceManagerShape =
     ["return &ResourceManager{ resources: make(map[string]io.Closer), singleFlight: NewSingleFlight(), }"] := by
   decide
 
+/-- `Inject`: one write-locked map store — the atomic `RM.inject` of the model (used by the correspondence runs to
+pre-register resources; outside `RM.Reach`). -/
+theorem tie_rmInject : rmInjectShape =
+    ["call manager.lock.Lock()", "mapset manager.resources[key] = resource", "call manager.lock.Unlock()"] := by decide
+
+/-- `Close`: under the write lock, close every held resource, then drop the map (the manager must not be used
+afterwards: a later `GetResource` would store into a nil map).  The correspondence runs call it after all calls
+returned and check that exactly the held instances were closed, once each. -/
+theorem tie_rmClose : rmCloseShape =
+    ["call manager.lock.Lock()", "defer{", "call manager.lock.Unlock()", "}", "var be",
+     "range manager.resources {", "call resource.Close()", "if err != nil {", "call be.Add(err)", "}", "}",
+     "store manager.resources", "call be.Err()", "return <call>"] := by decide
+
 /-! ### the synchronisation objects are the ones the rows' semantics were written for
 (`sync.Mutex`: exclusive; `sync.WaitGroup`: counter, `Wait` passes iff 0; `sync.RWMutex`: one writer or many readers;
 the maps are keyed by the caller's key string) -/
@@ -87,5 +102,59 @@ cache key itself (so "one execution per key" is "one load per cache key"). -/
 theorem tie_cacheNode_barrier : cacheNodeBarrierCalls = ["c.barrier.DoEx(key, func)"] := by decide
 theorem tie_collectionCache_barrier : collectionCacheBarrierCalls = ["c.barrier.Do(key, func)"] := by decide
 theorem tie_collectionCache_ctor : collectionCacheBarrierCtor = ["syncx.NewSingleFlight()"] := by decide
+
+/-- `collection.Cache.Take` = unlocked lookup (hit → return) ; `barrier.Do(key, closure)` with the closure of the
+same form as `GetResource`'s: look the key up again (`RM` row g1/g3: found → return it), run the loader (g4), on error
+return it uncached (g5), else store (g7) and return the loaded value; joiners and leader alike return the flight's
+`val`.  This is why its histories are checked against the `RM` model and monitor (harness TestVerifC07Collection). -/
+theorem tie_collectionTake : collectionTakeShape =
+    ["call c.doGet(key)", "if ok {", "call c.stats.IncrementHit()", "return val, nil", "}",
+     "var fresh",
+     "func{", "call c.doGet(key)", "if ok {", "return val, nil", "}",
+     "call fetch()", "if e != nil {", "return nil, e", "}",
+     "call c.Set(key, v)", "return v, nil", "}",
+     "call c.barrier.Do(key, func)", "if err != nil {", "return nil, err", "}",
+     "if fresh {", "call c.stats.IncrementMiss()", "return val, nil", "}",
+     "call c.stats.IncrementHit()", "return val, nil"] := by decide
+
+/-- `cacheNode.doTake`: the closure handed to the flight starts with the cache read for the same key, … -/
+theorem tie_doTake_reads_cache_first : cacheNodeDoTakeShape.take 2 = ["func{", "call c.doGetCache(ctx, key, v)"] := by
+  decide
+/-- … queries the database exactly once, writes the cache after it, … -/
+theorem tie_doTake_one_query :
+    cacheNodeDoTakeShape.filter (fun t => t = "call query(v)" || t = "call cacheVal(v)" || t = "call c.setCacheWithNotFound(ctx, key)")
+      = ["call query(v)", "call c.setCacheWithNotFound(ctx, key)", "call cacheVal(v)"] := by decide
+/-- … hands the marshalled row to the flight; after the flight: an error goes to everyone, the fresh caller keeps
+its own `v`, every joiner unmarshals the *leader's* bytes into its own `v`. -/
+theorem tie_doTake_after_flight :
+    cacheNodeDoTakeShape.dropWhile (fun t => t ≠ "call jsonx.Marshal(v)") =
+      ["call jsonx.Marshal(v)", "return <call>", "}",
+       "call c.barrier.DoEx(key, func)", "if err != nil {", "return err", "}", "if fresh {", "return nil", "}",
+       "call c.stat.IncrementTotal()", "call c.stat.IncrementHit()",
+       "call jsonx.Unmarshal(val.([]byte), v)", "return <call>"] := by decide
+
+/-- sqlc and monc hand ONE process-wide flight group to every cache (node) they build: flights are keyed by the
+cache key across all models of the process. -/
+theorem tie_sqlc_flight : sqlcFlightVar = ["singleFlights = syncx.NewSingleFlight()"] ∧
+    sqlcFlightUses = ["NewConn: cache.New(c, singleFlights, stats, sql.ErrNoRows, opts)",
+                      "NewNodeConn: cache.NewNode(rds, singleFlights, stats, sql.ErrNoRows, opts)"] := by decide
+theorem tie_monc_flight : moncFlightVar = ["singleFlight = syncx.NewSingleFlight()"] ∧
+    moncFlightUses = ["NewModel: cache.New(conf, singleFlight, stats, mongo.ErrNoDocuments, opts)",
+                      "NewNodeModel: cache.NewNode(rds, singleFlight, stats, mongo.ErrNoDocuments, opts)"] := by decide
+
+/-- the process-wide ResourceManagers: redis clients / clusters keyed by address, mongo clients by url (plus the
+`Inject` test hook), sql connections by data-source name — one `GetResource` call each, nothing else touches them. -/
+theorem tie_redis_managers :
+    redisClientManagerVar = ["clientManager = syncx.NewResourceManager()"] ∧
+    redisClientManagerUses = ["getClient: clientManager.GetResource(r.Addr, func)"] ∧
+    redisClusterManagerVar = ["clusterManager = syncx.NewResourceManager()"] ∧
+    redisClusterManagerUses = ["getCluster: clusterManager.GetResource(r.Addr, func)"] := by decide
+theorem tie_mon_manager :
+    monClientManagerVar = ["clientManager = syncx.NewResourceManager()"] ∧
+    monClientManagerUses = ["Inject: clientManager.Inject(key, &ClosableClient{client})",
+                            "getClient: clientManager.GetResource(url, func)"] := by decide
+theorem tie_sqlx_manager :
+    sqlxConnManagerVar = ["connManager = syncx.NewResourceManager()"] ∧
+    sqlxConnManagerUses = ["getCachedSqlConn: connManager.GetResource(server, func)"] := by decide
 
 end GoZero.C07.Tie
